@@ -105,6 +105,7 @@ structure St where
   socks : List Sock         -- overlay.exit_sockets
   circs : List Circ         -- overlay.circuits (circuits this node originated)
   tunnelEp : Bool := false  -- isinstance(overlay.endpoint, TunnelEndpoint)
+  exitIds : List Nat := []  -- overlay.exit_msg_ids: message types registered with add_cell_handler(..., from_exit=True)
   deriving Repr, Inhabited
 
 inductive Out
@@ -295,14 +296,19 @@ def condOnData (e : DEnv) (st : St) : Cond → Bool
     | some c => c.e2e
     | none => false
   | .ownPrefix => st.pfx == e.payload.take 22
-  | .nestedData => e.payload[22]? == some (UInt8.ofNat Gen.DATA_MSG_ID)
+  | .exitMessage =>
+    match e.payload[22]? with
+    | some b => st.exitIds.contains b.toNat
+    | none => false
   | .tunnelEndpoint => st.tunnelEp
   | _ => false
 
 /-- `deliverOwn` hands the payload to `on_packet_from_circuit`, which re-dispatches by `data[22]` through
-    `decode_map_private`.  The only handler that leads to the exit path is `on_data` itself, registered for
-    `DataPayload.msg_id` only (both checked by the translator), so for any other message id the re-dispatch is a local
-    delivery (`loc`); `safeOnData` demands that `deliverOwn` is reached only when `nestedData` is known to be false. -/
+    `decode_map_private` with the payload's `org_address` (chosen by the sender) as source address.  `safeOnData` demands
+    that it is reached only when `exitMessage` is known to hold, i.e. for message types that were registered to arrive
+    through an exit; the circuit-management cells (data, create, created, extend, extended, ping, pong, test-*) are not
+    (`Gen.EXIT_MSG_IDS_DECLARED`, theorem `data_is_not_an_exit_message`), so the re-dispatch never leads back into
+    `on_data`/`exit_data` and is a local delivery (`loc`). -/
 def actOnData (e : DEnv) (st : St) : Act → St × List Out
   | .exitData => exitData st e.srcIp e.cid e.dest e.payload
   | .deliverOwn => (st, [.loc e.cid 0])
